@@ -1,0 +1,79 @@
+//go:build verif
+
+// Machine-checked contracts for package signature (comment-only file; never
+// compiled into the library).  Read by /verif/engine (gvc).
+
+package signature
+
+//@ import i2pd "github.com/go-i2p/common/data"
+
+//@ spec func SigInv(s Signature) bool { return i2pd.SpecSigLen(s.sigType) >= 0 && len(s.data) == i2pd.SpecSigLen(s.sigType) }
+//@ spec func SigData(s Signature) []byte { return s.data }
+//@ spec func SigTypeOf(s Signature) int { return s.sigType }
+
+//@ contract SignatureSize(sigType int) (size int, err error)
+//@   ensures @C10 (err == nil) == (i2pd.SpecSigLen(sigType) >= 0)
+//@   ensures @C10 err == nil ==> size == i2pd.SpecSigLen(sigType)
+//@   ensures err != nil ==> size == 0
+//@   modifies nothing
+
+//@ contract ReadSignature(data []byte, sigType int) (sig Signature, remainder []byte, err error)
+//@   ensures @C08 fresh(sig.data)
+//@   ensures @C01 @C03 @C10 (err == nil) == (i2pd.SpecSigLen(sigType) >= 0 && len(data) >= i2pd.SpecSigLen(sigType))
+//@   ensures @C01 @C03 err == nil ==> sig.sigType == sigType && seqeq(sig.data, data[:i2pd.SpecSigLen(sigType)]) && suffix(remainder, data, i2pd.SpecSigLen(sigType))
+//@   ensures @C03 err != nil ==> remainder == nil && sig.data == nil
+//@   modifies nothing
+
+//@ contract NewSignature(data []byte, sigType int) (signature *Signature, remainder []byte, err error)
+//@   ensures @C08 fresh(signature.data)
+//@   ensures @C19 (err == nil) == (i2pd.SpecSigLen(sigType) >= 0 && len(data) >= i2pd.SpecSigLen(sigType))
+//@   ensures @C19 err == nil ==> signature != nil && signature.sigType == sigType && seqeq(signature.data, data[:i2pd.SpecSigLen(sigType)]) && suffix(remainder, data, i2pd.SpecSigLen(sigType))
+//@   ensures err != nil ==> signature == nil
+//@   modifies nothing
+
+//@ contract NewSignatureFromBytes(data []byte, sigType int) (sig Signature, err error)
+//@   ensures @C08 fresh(sig.data)
+//@   ensures @C19 @C10 (err == nil) == (i2pd.SpecSigLen(sigType) >= 0 && len(data) == i2pd.SpecSigLen(sigType))
+//@   ensures @C19 err == nil ==> sig.sigType == sigType && seqeq(sig.data, data)
+//@   modifies nothing
+
+//@ contract (s Signature) Bytes() (b []byte)
+//@   ensures @C08 fresh(b)
+//@   ensures @C01 seqeq(b, s.data) && (b == nil) == (s.data == nil)
+//@   modifies nothing
+
+//@ contract (s Signature) Serialize() (b []byte)
+//@   ensures @C08 fresh(b)
+//@   ensures @C01 seqeq(b, s.data)
+//@   modifies nothing
+
+//@ contract (s Signature) Len() (n int)
+//@   ensures n == len(s.data)
+//@   modifies nothing
+
+//@ contract (s Signature) Type() (t int)
+//@   ensures t == s.sigType
+//@   modifies nothing
+
+//@ contract (s Signature) Validate() (err error)
+//@   ensures @C14 (err == nil) == SigInv(s)
+//@   modifies nothing
+
+//@ lemma C01_ReadSignature(data []byte, sigType int) {
+//@   s, rem, err := ReadSignature(data, sigType)
+//@   if err == nil {
+//@     assert(seqeq(s.Bytes(), data[:len(data)-len(rem)]))
+//@     assert(s.Validate() == nil)
+//@   }
+//@ }
+
+//@ lemma C19_SignatureConstructorsAgree(data []byte, sigType int) {
+//@   s1, r1, e1 := ReadSignature(data, sigType)
+//@   s2, r2, e2 := NewSignature(data, sigType)
+//@   assert((e1 == nil) == (e2 == nil))
+//@   if e1 == nil {
+//@     assert(seqeq(s1.Bytes(), s2.Bytes()) && len(r1) == len(r2) && s1.Type() == s2.Type())
+//@     s3, e3 := NewSignatureFromBytes(data[:len(data)-len(r1)], sigType)
+//@     assert(e3 == nil && seqeq(s3.Bytes(), s1.Bytes()))
+//@   }
+//@ }
